@@ -12,6 +12,7 @@ import (
 	api "github.com/polydawn/go-timeless-api"
 	"github.com/polydawn/go-timeless-api/rio"
 	tartrans "github.com/polydawn/rio/transmat/tar"
+	ziptrans "github.com/polydawn/rio/transmat/zip"
 )
 
 func init() { engines["packenv"] = packenvEngine }
@@ -112,21 +113,36 @@ func packenvExec(c *Ctx, op string) {
 			}
 		}
 	}
-	// the CLI in a subprocess with another time zone, locale and working directory
+	// the CLI in a subprocess with another time zone, locale and working directory — tar and zip; set 0 carries
+	// mtimes inside the repeated / skipped wall-clock hours of these zones (see dstInstants)
 	if bin := os.Getenv("RIO_BIN"); bin != "" && len(dirs[0]) > 0 {
-		for _, env := range [][]string{{"TZ=Asia/Kolkata", "LANG=de_DE.UTF-8"}, {"TZ=America/St_Johns", "LC_ALL=C"}} {
-			cmd := exec.Command(bin, "pack", "tar", dirs[0][0], "--filters", losslessPackStr)
-			cmd.Env = append(os.Environ(), env...)
-			cmd.Dir = "/"
-			out, err := cmd.Output()
-			got := "ok " + strings.TrimPrefix(strings.TrimSpace(string(out)), "tar:")
-			if err != nil {
-				got = "cli-error"
+		zid, zerr, zpan := safeCall(func() (api.WareID, error) {
+			return ziptrans.Pack(ctx, "zip", dirs[0][0], pf, "", rio.Monitor{})
+		})
+		refs := map[string]string{"tar": ref[0], "zip": resTok(zid, zerr, zpan)}
+		for _, env := range [][]string{{"TZ=Asia/Kolkata", "LANG=de_DE.UTF-8"}, {"TZ=America/St_Johns", "LC_ALL=C"}, {"TZ=America/New_York"}, {"TZ=Europe/Berlin", "LANG=tr_TR.UTF-8"}, {"TZ=Australia/Lord_Howe"}} {
+			for _, format := range []string{"tar", "zip"} {
+				cmd := exec.Command(bin, "pack", format, dirs[0][0], "--filters", losslessPackStr)
+				cmd.Env = append(os.Environ(), env...)
+				cmd.Dir = "/"
+				out, err := cmd.Output()
+				got := "ok " + strings.TrimPrefix(strings.TrimSpace(string(out)), format+":")
+				if err != nil {
+					got = "cli-error"
+				}
+				how := "packed (" + format + ") by the CLI under " + strings.Join(env, " ")
+				c.H("variant:cli-" + format)
+				if got != refs[format] {
+					c.PropFail("pack-env", fmt.Sprintf("pack of the same fileset gives %s instead of %s when %s", got, refs[format], how), op)
+				}
 			}
-			check(0, got, "packed by the CLI under "+strings.Join(env, " "))
 		}
 	}
 }
+
+// instants (unix seconds) inside or at the edge of the wall-clock hours that repeat or are skipped at DST
+// transitions of the zones the CLI variants run under
+var dstInstants = []int64{1793511000, 1793514600, 1772953199, 1772953200, 1792888200, 1792891800, 1774746000, 1775313900, 1775315700, 1793505600, 1793509200, 562138200, 1162081800}
 
 func packenvEngine(c *Ctx) {
 	if ls := replayLines(); ls != nil {
@@ -147,6 +163,11 @@ func packenvEngine(c *Ctx) {
 			// a few large files per set so that concurrent packs really overlap inside file bodies
 			fsx := c.GenFileset(GenOpts{MaxEntries: 6, Kinds: "ffdL", SubSecond: true, BigIds: true, Setid: true, MaxContent: 100})
 			sanitizeForRoundtrip(fsx, "tar")
+			if i == 0 {
+				for j := range fsx {
+					fsx[j].Sec = dstInstants[c.Intn(len(dstInstants))]
+				}
+			}
 			big := Entry{Name: fmt.Sprintf("big%d", i), Kind: 'f', Perms: 0644, Uid: 5, Gid: 6, Sec: 1e9, Content: make([]byte, 600000+c.Intn(400000))}
 			for j := range big.Content {
 				big.Content[j] = byte(j*7 + i)
